@@ -8,7 +8,7 @@ COQ = os.path.join(VERIF, 'coq')
 BUILD = os.path.join(VERIF, 'build')
 MODELRUN = os.path.join(BUILD, 'modelrun')
 NUM_PROPS = ('C05', 'C06', 'C16', 'C17', 'C18', 'C19', 'C20')
-GEN_PROPS = ('C15',)
+GEN_PROPS = ('C15', 'C01')
 GATE_RE = re.compile(r'\b(Admitted|admit|Axiom|Axioms|Parameter|Parameters|Conjecture|Hypothesis|Variable)\b|Unset\s+Guard|bypass_check|type-in-type|impredicative-set|Admit\s+Obligations')
 
 
@@ -37,6 +37,8 @@ TRANSLATIONS = {
     # name: (translator script, source relative to /repo, generated file, extra arguments)
     'cdp': ('py2gallina.py', 'mechanisms/cdp2adp.py', 'Cdp2adp_gen.v', ['cdp_delta_standard', 'cdp_delta', 'cdp_eps', 'cdp_rho']),
     'domain': ('py2gallina_list.py', 'src/mbi/domain.py', 'Domain_gen.v', ['domain']),
+    'budget': ('py2gallina_budget.py', 'mechanisms', 'Budget_gen.v', []),
+    'bp': ('py2gallina_bp.py', 'src/mbi/graphical_model.py', 'BP_gen.v', []),
 }
 
 
@@ -80,7 +82,8 @@ def coq_make(prop):
         for nm in TRANSLATIONS:
             if nm != 'cdp':
                 trs[nm] = run_translator(nm)
-        if not os.path.exists(os.path.join(COQ, 'Makefile')):
+        mkf, prj = os.path.join(COQ, 'Makefile'), os.path.join(COQ, '_CoqProject')
+        if not os.path.exists(mkf) or os.path.getmtime(mkf) < os.path.getmtime(prj):
             sh('coq_makefile -f _CoqProject -o Makefile', cwd=COQ)
         jobs = os.environ.get('VERIF_JOBS', '16')
         rc, out = sh('timeout 2400 make -k -j%s 2>&1' % jobs, timeout=2500, cwd=COQ)
@@ -214,19 +217,35 @@ def run_model(lines, timeout=600, jobs=None):
     return res
 
 
-def run_gen(lines, timeout=600):
-    """Run the functions GENERATED from the Python source (build/genrun); one output line per input line."""
-    if not lines:
-        return []
+def _run_gen_chunk(args):
+    lines, timeout = args
     binp = os.path.join(BUILD, 'genrun')
-    if not os.path.exists(binp):
-        return ['EXC genrun-not-built'] * len(lines)
-    rc, out = sh([binp], timeout=timeout, inp='\n'.join(lines) + '\n')
+    rc, out = sh('ulimit -s unlimited 2>/dev/null; exec %s' % binp, timeout=timeout, inp='\n'.join(lines) + '\n')
     res = out.split('\n')
     if res and res[-1] == '':
         res.pop()
     res += ['EXC gen-runner-died rc=%s' % rc] * (len(lines) - len(res))
     return res[:len(lines)]
+
+
+def run_gen(lines, timeout=600, jobs=None):
+    """Run the functions GENERATED from the Python source (build/genrun), split over several processes; one output line per input line."""
+    if not lines:
+        return []
+    if not os.path.exists(os.path.join(BUILD, 'genrun')):
+        return ['EXC genrun-not-built'] * len(lines)
+    jobs = jobs or int(os.environ.get('VERIF_JOBS', '16'))
+    if len(lines) < 8 or jobs <= 1:
+        return _run_gen_chunk((lines, timeout))
+    from concurrent.futures import ThreadPoolExecutor
+    k = min(jobs, len(lines))
+    chunks = [lines[i::k] for i in range(k)]
+    with ThreadPoolExecutor(k) as ex:
+        outs = list(ex.map(_run_gen_chunk, [(c, timeout) for c in chunks]))
+    res = [None] * len(lines)
+    for i, o in enumerate(outs):
+        res[i::k] = o
+    return res
 
 
 def run_num(lines, timeout=600):
